@@ -27,7 +27,7 @@ import json
 
 from . import lints
 from .report import AnalysisError, VERIF
-from .srcmodel import unparse, walk_no_nested, calls_in
+from .srcmodel import unparse, walk_no_nested, calls_in, dotted
 
 PURE_METHODS = {'subs', 'xreplace', 'reassign', 'update_source', 'simplify', 'expand', 'set_initial_estimates',
                 'remove_symbol_definitions', 'unjoin', 'derive'}
@@ -36,6 +36,10 @@ EXCEPTIONS = {
     ('pharmpy.model.external.nlmixr.model', 'convert_model', 'discarded result'):
         'update_source() result is never read; the code property regenerates the source',
     ('pharmpy.model.external.rxode.model', 'convert_model', 'discarded result'): 'same as nlmixr',
+    ('pharmpy.model.external.nonmem.update', 'define_parameter', 'index tested for truth'):
+        'index 0 only changes where the new assignment is placed (end of the $PK block instead of before the output rate)',
+    ('pharmpy.model.external.nonmem.update', 'update_needed_pk_parameters', 'index tested for truth'):
+        'index 0 only leaves an unused K<i><j> = ... assignment of a removed flow in the code',
 }
 
 
@@ -125,6 +129,46 @@ def run(chk, repo, pid):
         for d_, v_, how_ in lints.dead_pure_updates(f.node):
             found.append(('lost update', d_.line, f'{d_.text()[:60]} ... {how_}',
                           f'the new value of `{v_}` is never read on that path: the change it carries is dropped'))
+        # an index (result of a *_index function) tested for truth: 0 is a valid position
+        idxvars = {}
+        for a_ in ast.walk(f.node):
+            if isinstance(a_, (ast.Assign, ast.NamedExpr)):
+                tg = a_.targets[0] if isinstance(a_, ast.Assign) else a_.target
+                if isinstance(tg, ast.Name) and isinstance(a_.value, ast.Call) \
+                        and (dotted(a_.value.func) or '').split('.')[-1].endswith('_index'):
+                    idxvars[tg.id] = a_
+        if idxvars:
+            for t_ in ast.walk(f.node):
+                if not isinstance(t_, (ast.If, ast.While, ast.IfExp)):
+                    continue
+                leaves = [t_.test] + [v for b_ in ast.walk(t_.test) if isinstance(b_, ast.BoolOp) for v in b_.values] + \
+                    [u.operand for u in ast.walk(t_.test) if isinstance(u, ast.UnaryOp) and isinstance(u.op, ast.Not)]
+                for x in leaves:
+                    if isinstance(x, ast.NamedExpr):
+                        x = x.target
+                    if isinstance(x, ast.Name) and x.id in idxvars:
+                        found.append(('index tested for truth', t_.lineno, f'if {unparse(t_.test)[:60]}',
+                                      f'`{x.id}` is a position ({unparse(idxvars[x.id].value)[:50]}): position 0 is taken for '
+                                      f'"not found"; test `is not None`'))
+                        break
+        # zip(xs, ys, ..) after only xs was filtered: the companions no longer line up
+        filtered = {}
+        for a_ in ast.walk(f.node):
+            if isinstance(a_, ast.Assign) and len(a_.targets) == 1 and isinstance(a_.targets[0], ast.Name) \
+                    and isinstance(a_.value, (ast.ListComp, ast.GeneratorExp)) and len(a_.value.generators) == 1 \
+                    and a_.value.generators[0].ifs and isinstance(a_.value.generators[0].iter, ast.Name) \
+                    and a_.value.generators[0].iter.id == a_.targets[0].id:
+                filtered[a_.targets[0].id] = a_
+        if filtered:
+            for c_ in ast.walk(f.node):
+                if isinstance(c_, ast.Call) and dotted(c_.func) == 'zip' and len(c_.args) >= 2:
+                    argn = [x.id for x in c_.args if isinstance(x, ast.Name)]
+                    hit = [x for x in argn if x in filtered and filtered[x].lineno < c_.lineno]
+                    others = [x for x in argn if x not in filtered]
+                    if hit and others:
+                        found.append(('zip after one-sided filter', c_.lineno, unparse(c_)[:80],
+                                      f'`{hit[0]}` was filtered ({unparse(filtered[hit[0]].value)[:50]}) but {others} were not: the '
+                                      f'tuples pair an element with the companion of another position'))
         for b in ast.walk(f.node):
             if f.name in ('replace', 'create', 'derive') and isinstance(b, ast.BoolOp) and isinstance(b.op, ast.Or) \
                     and isinstance(b.values[0], ast.Call) and isinstance(b.values[0].func, ast.Attribute) \
@@ -142,4 +186,4 @@ def run(chk, repo, pid):
                 chk.violation(Y0, f.module.rel, f.qualname, f'loop-carried flag `{v}`',
                               'tested and cleared in an inner loop, initialised outside the outer loop', line=M.lineno,
                               advisory=True)
-    chk.instance(Y0, f'{nfun} functions of {len(mods)} anchored modules scanned for 13 defect shapes', n=nfun)
+    chk.instance(Y0, f'{nfun} functions of {len(mods)} anchored modules scanned for 15 defect shapes', n=nfun)
